@@ -15,3 +15,9 @@ reg("C32", "mc", "mc-harness", "model_checking",
     "Every schedule with at most k preemptions (k iterated from 0) of plain and TSIG-signing queriers racing a thread that swaps catalog and key set is executed on the real Server::handle_message; each response must carry a single data generation in all of its sections, a request started after a swap returned must see the new data, and a signed exchange must be verified and signed under one secret (checked with an independent HMAC).",
     "Sequentially consistent interleavings at RwLock operations (catalog and key set are each an RwLock<Arc<_>>). Trusts shuttle-engine, mcshim, the mirror's import redirection, and the harness's own SHA-256/HMAC (known-answer tested).",
     "DESIGN.md §3.2, §7 C32")
+
+reg("C30", "mc", "mc-harness", "model_checking",
+    "explicit enumeration of scripted-socket histories (request batches x segmentations x single environment deviations) driving the real provider loops of the seam mirror, compared with the server's per-request answers",
+    "Every history in a stated finite space - batches of <= 3 requests from a 7-entry menu, every small subset of cut points near each length prefix / message boundary (plus one octet at a time), and at most one environment deviation (EINTR, timeout, EOF, error, Pending, stall, short / failing / interrupted write, shutdown at a response) at every position - is run through the real handle_tcp_connection / run_udp_worker (blocking) and handle_tcp_connection / run_udp_receiver (Tokio, paused clock) over scripted sockets; the bytes written must be exactly the length-prefixed handle_message results in order.",
+    "The kernel side is replaced by scripted sockets (mc/mcshim/src/{net,anet}.rs): real TCP segmentation, recvmsg ancillary data and local-address selection, the accept loops and Tokio's multi-thread scheduler are outside the explored space. Function bodies of the providers are byte-identical to the repository's (import redirection only, checked by mc/mirror.py).",
+    "DESIGN.md §7 C30, §10")
